@@ -84,6 +84,8 @@ type ArrayVal struct {
 	C      ArrC  // when Scalar
 	Len    *Term // index sort
 	List   []Val // when !Scalar: concrete length
+	Sym    string // when !Scalar and List == nil: symbolic list (elements are functions of name and index)
+	SymMax *Term  // optional: upper bound on the length of string/slice elements of a symbolic list
 }
 
 type PathElem struct {
